@@ -461,7 +461,25 @@ func runC17(res *lib.Result, tier string, seed int64, args []string) error {
 			rulesJSON := ""
 			if len(rules) > 0 {
 				var rs []string
-				for _, ru := range rules {
+				// a rule with several types is sometimes written as several entries with the SAME File value, one type each:
+				// the entries combine (i is the index of the configuration, no random draw: nothing else shifts)
+				written := rules
+				if i%2 == 0 {
+					written = nil
+					for _, ru := range rules {
+						if len(ru.types) < 2 {
+							written = append(written, ru)
+							continue
+						}
+						for _, t := range ru.types {
+							written = append(written, c17Rule{file: ru.file, types: []int{t}})
+						}
+					}
+					if len(written) > len(rules) {
+						res.Dist("e2e.rule-split-into-same-file-entries")
+					}
+				}
+				for _, ru := range written {
 					rs = append(rs, fmt.Sprintf(`{"File": %s, "Types": %s}`, mustJSON(ru.file), mustJSON(ru.types)))
 				}
 				rulesJSON = `, "IgnoreFileErrTypes": [` + strings.Join(rs, ", ") + `]`
